@@ -37,7 +37,8 @@ tagged only if EVERY leaked occurrence in it is explained):
            the definition `*[key]:` may sit anywhere (list item, quote, footnote body).
   F-C10-7  (proposed) after a stray `&#` (two-phase parse of html.parser, cf. F-C04-1/2) an end tag directly before a fenced block is
            re-spelt from the wrong offsets and swallows the head of the fence's placeholder: a proper suffix of it is left
-           (`zxhzdk:N` ETX, `N` ETX, or the ETX alone); fenced_code/extra enabled; input has `&#` ... `</tag` ... line break, fence.
+           (`zxhzdk:N` ETX, `N` ETX, or the ETX alone); fenced_code/extra enabled; input has `&#` ... `</tag` ... line break, fence -- or, the
+           root cause observed directly: a fence line in the input and a two-phase parse (gen/htmlstate.two_phase), whichever end tag is re-spelt.
   with toc enabled, copies of an F-C10-1/-5 leak of a heading in the toc div / heading id are knock-on effects of that leak.
 REPORT_QUANTIFIER_EXCLUDED: F-C10-4/-5 are regions the property's quantifier excludes; when False they are only counted.
 
@@ -182,6 +183,22 @@ def html_unescape_leaves_placeholder(text, exts, fmt='xhtml'):
     return bool(hit)
 
 
+_FENCE_LINE = re.compile(r'^(?:`{3,}|~{3,})', re.M)
+
+
+def two_phase_with_fence(text, exts, fmt='xhtml'):
+    """The root cause of F-C10-7 observed directly (used when the syntactic trigger `_AMPTAGFENCE` does not see it: the end tag that is re-spelt
+    need not stand next to the fence -- `&# ... <span>y</span> ...` paragraphs away from `<div>\n```\nx\n```\n</div>` copies `k:0` ETX into the
+    paragraph): the document has a fence line, and html.parser's first pass stops early (gen/htmlstate.two_phase, evaluated with the
+    preprocessors of THIS configuration, so the fence placeholders are already in the text the extractor scans)."""
+    if not _FENCE_LINE.search(text): return False
+    try:
+        from gen import htmlstate
+        return bool(htmlstate.two_phase(markdown.Markdown(extensions=list(exts), output_format=fmt), text))
+    except Exception:
+        return False
+
+
 def classify(text, exts, out, fmt='xhtml'):
     """-> (finding id or None, shapes): None means at least one leaked occurrence is not explained by a known region.
     Works by elimination on the output string: each known region removes exactly the leak shapes it explains (and only if
@@ -205,7 +222,7 @@ def classify(text, exts, out, fmt='xhtml'):
         if w2 != work:
             note('F-C10-6', 'abbr-in-placeholder'); work = w2
     # F-C10-7: after a stray `&#` an unterminated end tag right before a fenced block swallows the head of the fence's placeholder
-    if ({'fenced_code', 'extra'} & exts) and _AMPTAGFENCE.search(text):
+    if ({'fenced_code', 'extra'} & exts) and (_AMPTAGFENCE.search(text) or two_phase_with_fence(text, exts, fmt)):
         w2 = _drop_headless(work)
         if w2 != work:
             note('F-C10-7', 'headless-raw-placeholder'); work = w2
